@@ -1,7 +1,7 @@
 #!/bin/bash
 # usage: tools/try_mutant.sh <patch.diff> <tier> <Cxx> [Cyy ...]
 # Applies a seeded change to /repo, runs the named checks, and ALWAYS reverts /repo.
-patch="$1"; tier="$2"; shift 2
+patch="$(realpath "$1")"; tier="$2"; shift 2
 cd /verif
 if ! git -C /repo diff --quiet; then echo "refusing: /repo has uncommitted changes"; exit 3; fi
 if ! git -C /repo apply --check "$patch" 2>/dev/null; then echo "PATCH DOES NOT APPLY: $patch"; exit 4; fi
